@@ -132,14 +132,61 @@ class Anchors:
         self._set('overlay-lookup', self._unique([f for f in ib if _ret_mentions(f, 'page_node::PageNode') and not _ret_mentions(f, 'PageNodeID')], 'page_node'),
                   'InnerBucket method returning PageNode')
         self._set('materialise', self._unique([f for f in ib if f.name == 'node'], 'node'))
-        # ---- the function DB::check and strict mode both reach
-        self._set('check-role', F.fn('TxInner::check'))
+        # ---- the function DB::check and strict mode both reach: the TxInner method (Result<()>) reachable from the public DB::check
+        dbcheck = self.roles.get('DB::check')
+        reach_chk = F.reachable_fns([dbcheck]) if dbcheck else set()
+        txi = [f for f in self._methods_of('TxInner') if f in reach_chk and 'Result<(), errors::Error>' in f.locals[0]['ty']]
+        self._set('check-role', self._unique(txi, 'check'), 'TxInner method returning Result<()> reachable from DB::check')
+        # ---- transaction begin: the function DB::tx calls that returns Result<Tx> and takes the writable flag
+        dbtx = self.roles.get('DB::tx')
+        beg = [g for g in (cg.get(dbtx, ()) if dbtx else ()) if 'tx::Tx<' in g.locals[0]['ty'] and any(g.locals[i]['ty'] == 'bool' for i in range(1, g.argc + 1))]
+        self._set('begin-role', self._unique(beg, 'new'), 'function called by DB::tx that takes the writable flag and returns Result<Tx>')
+        # ---- writable bit
+        wr = [f for f in self._methods_of('TxLock') if f.locals[0]['ty'] == 'bool']
+        self._set('writable-role', self._unique(wr, 'writable'), 'TxLock method returning bool')
+        twr = [f for f in self._methods_of('Tx') if f.locals[0]['ty'] == 'bool' and self.roles.get('writable-role') in cg.get(f, ())]
+        self._set('tx-writable-role', self._unique(twr, 'writable'), 'Tx method returning bool that calls the TxLock writable role')
+        # ---- bucket view construction, spill / rebalance of the root bucket
+        ibm = self._methods_of('InnerBucket')
+        fm = [f for f in ibm if any('BucketMeta' in _tree_str(t) for t in f.j['sig']['inputs']) and any('page::Pages' in _tree_str(t) for t in f.j['sig']['inputs'])
+              and 'InnerBucket' in _tree_str(f.j['sig']['output'])]
+        self._set('view-from-meta', self._unique(fm, 'from_meta'), 'InnerBucket constructor from (BucketMeta, Pages)')
+        cm = self.roles.get('Tx::commit')
+        direct = cg.get(cm, set()) if cm else set()
+        sp = [f for f in ibm if f in direct and 'BucketMeta' in _tree_str(f.j['sig']['output'])]
+        self._set('spill-role', self._unique(sp, 'spill'), 'InnerBucket method called by Tx::commit returning Result<BucketMeta>')
+        rb = [f for f in ibm if f in direct and f not in sp and any('TxFreelist' in _tree_str(t) for t in f.j['sig']['inputs'])]
+        self._set('rebalance-role', self._unique(rb, 'rebalance'), 'other InnerBucket method called by Tx::commit with the TxFreelist')
+        # ---- page views
+        flm = [f for f in self._methods_of('Page') if _tree_str(f.j['sig']['output']).count('"mut": true') and 'u64' in _tree_str(f.j['sig']['output']) and 'slice' in _tree_str(f.j['sig']['output'])]
+        self._set('freelist-view-mut', self._unique(flm, 'freelist_mut'), 'Page method returning &mut [u64]')
+        nfp = [f for f in F.fns if f.kind == 'AssocFn' and f.self_adt and last_seg(f.self_adt) == 'Node' and not f.trait
+               and any('page::Page' in _tree_str(t) for t in f.j['sig']['inputs']) and 'node::Node' in _tree_str(f.j['sig']['output'])]
+        self._set('node-from-page', self._unique(nfp, 'from_page'), 'Node constructor from &Page')
         # ---- node serialiser: Page method taking &Node
         pg = self._methods_of('Page')
         self._set('node-serialiser', self._unique([f for f in pg if any('node::Node' in _tree_str(t) for t in f.j['sig']['inputs'])], 'write_node'))
-        self._set('Page::from_buf', F.fn('Page::from_buf'))
-        self._set('init_file', F.fn('init_file'))
-        self._set('open_file', F.fn('open_file'))
+        pfb = [f for f in F.fns if f.kind == 'AssocFn' and f.self_adt and last_seg(f.self_adt) == 'Page' and not f.trait
+               and f.j['sig']['inputs'] and f.j['sig']['inputs'][0].get('k') == 'ref' and f.j['sig']['inputs'][0]['t'].get('k') == 'slice' and 'page::Page' in _tree_str(f.j['sig']['output'])]
+        self._set('Page::from_buf', self._unique(pfb, 'from_buf'), 'Page view of a byte buffer')
+        # ---- creation / open helpers of OpenOptions::open
+        oo = self.roles.get('OpenOptions::open')
+        called = cg.get(oo, set()) if oo else set()
+
+        def has_std_open(f):
+            return any(c and strip_generics(c['path']) == 'std::fs::OpenOptions::open' for _, _, _, c in F.call_sites(f))
+
+        def writes_file(f):
+            return any(c and c['path'] in ('std::io::Write::write_all', 'std::io::Write::write') and (c.get('self_ty') or '') in ('std::fs::File', '&std::fs::File')
+                       for _, _, _, c in F.call_sites(f))
+        free_fns = [f for f in F.fns if f.kind == 'Fn']
+        self._set('open_file', self._unique([f for f in free_fns if has_std_open(f)], 'open_file'), 'free function calling std OpenOptions::open')
+        self._set('init_file', self._unique([f for f in free_fns if writes_file(f) and f in F.reachable_fns([oo] if oo else [])], 'init_file'),
+                  'free function reachable from OpenOptions::open that writes the file')
+        # ---- the bucket deletion walk: InnerBucket method calling both the tx free role and the map view
+        txf, mvw = self.roles.get('tx-free-role'), self.roles.get('map-view')
+        dw = [f for f in self._methods_of('InnerBucket') if txf in cg.get(f, ()) and mvw in cg.get(f, ())]
+        self._set('delete-walk', self._unique(dw, 'delete_bucket'), 'InnerBucket method that frees pages it finds through the map view')
         self._set('resize-role', self._unique([f for f in self._methods_of('DBInner') if any(
             c and strip_generics(c['path']).endswith('FileExt::allocate') for _, _, _, c in F.call_sites(f))], 'resize'),
             'DBInner method calling FileExt::allocate')
